@@ -3,7 +3,7 @@
   as data (`AcnModel/Gen/Sites.lean`, regenerated from the working tree on every run) plus
 
   * the numeric network they denote at a carrier `K` (`netOf`): dense constraint matrix, limits
-    re-evaluated from the parsed formulas at ANY capacity, exact unit phasors of the three
+    re-evaluated from the fitted formulas (canonical `cap · N/D [· √3]`) at ANY capacity, exact unit phasors of the three
     line-to-line angles written with `r = √3` (`r * r = 3` is all the theorems use);
   * feasibility through `Feas.netFeasible` (charging_network.py:486-541);
   * the structural predicates `topoOk` / `instOk` that `site_structure_*` decides on the data.
@@ -224,7 +224,7 @@ def topoDiag (T : Topo) : List String :=
     let k := (roleRows T).count i
     if k = 1 then none else some s!"constraint {conName T i} has {k} roles (pod / panel line / transformer row)")
 
-/-! ## limits of an executed instance against the parsed formulas (exact rationals) -/
+/-! ## limits of an executed instance against the fitted formulas (exact rationals) -/
 
 def ratOf (p : Int × Nat) : Rat := mkRat p.1 p.2
 
@@ -264,7 +264,8 @@ def ofIntK (z : Int) : K := if z < 0 then -((z.natAbs : Nat) : K) else ((z.natAb
 
 def ratK (n : Int) (d : Nat) : K := ofIntK n / ((d : Nat) : K)
 
-/-- one step of a limit formula, in the source's evaluation order -/
+/-- one step of a limit formula, left to right (canonical form: one `.mul N D`, then `.mulSqrt3` if odd; the driver
+    evaluates the source's own operation order when `Gen/SitesSrc.lean` has it) -/
 def evalOp (r : K) (x : K) : Op → K
   | .mul n d => x * ratK n d
   | .div n d => x / ratK n d
